@@ -21,6 +21,7 @@ type Script struct {
 	OutReceived *[]string        // lines the "out" helper read from its stdin
 	Starts      int
 	Kills       int
+	TwoPorts    bool // the helper reports two in and four out ports
 }
 
 // Current is the script of the execution in progress.
@@ -81,8 +82,14 @@ func (c *Cmd) Output() ([]byte, error) {
 	case strings.Contains(s, "version"):
 		return []byte("0.6.8"), nil
 	case strings.Contains(s, "ins --json"):
+		if Current != nil && Current.TwoPorts {
+			return []byte(`{"0":"vin","1":"vin2"}`), nil
+		}
 		return []byte(`{"0":"vin"}`), nil
 	case strings.Contains(s, "outs --json"):
+		if Current != nil && Current.TwoPorts {
+			return []byte(`{"0":"vout","1":"vout2","2":"vout3","3":"vout4"}`), nil
+		}
 		return []byte(`{"0":"vout"}`), nil
 	}
 	return nil, fmt.Errorf("vexec: unknown command %q", s)
@@ -135,15 +142,15 @@ func (c *Cmd) Start() error {
 		in := c.Stdin
 		vsync.Go(func() {
 			var line []byte
-			b := make([]byte, 1)
+			b := make([]byte, 4096)
 			for {
 				n, err := in.Read(b)
 				if err != nil || p.dead {
 					return
 				}
-				if n == 1 {
-					line = append(line, b[0])
-					if b[0] == '\n' {
+				for _, c := range b[:n] {
+					line = append(line, c)
+					if c == '\n' {
 						*sc.OutReceived = append(*sc.OutReceived, string(line))
 						line = nil
 					}
